@@ -910,24 +910,36 @@ theorem foldl_setSentAt (l : List Ent) (now : Nat) (r : RWL) :
     unfold RWL.setSentAt
     split <;> simp
 
-theorem inv_doDeliver {cfg : Cfg} {s : St} (h : Inv cfg s) : Inv cfg (doDeliver s) := by
+theorem doDeliver_spec {cfg : Cfg} {s : St} {pe be : List Ent} {msg : Msg} (hp : s.ph = .flight pe be msg) :
+    (doDeliver s).q.peer.pending = s.q.peer.pending ∧ (doDeliver s).q.peer.sent = s.q.peer.sent ∧
+    (doDeliver s).q.bcst.pending = s.q.bcst.pending ∧ (doDeliver s).q.bcst.sent = s.q.bcst.sent ∧
+    (doDeliver s).q.cancels = s.q.cancels ∧ (doDeliver s).q.prio = s.q.prio ∧
+    effPeer (doDeliver s) = effPeer s ∧ PhaseInv cfg (doDeliver s) ∧
+    (doDeliver s).pw = s.pw ∧ (doDeliver s).bw = s.bw := by
   unfold doDeliver
-  cases hp : s.ph with
-  | flight pe be msg =>
-    simp only
-    refine h.congr (foldl_setSentAt _ _ _).1 (foldl_setSentAt _ _ _).2 (foldl_setSentAt _ _ _).1
-      (foldl_setSentAt _ _ _).2 rfl rfl ?_ ?_
+  simp only [hp]
+  split
+  · refine ⟨(foldl_setSentAt _ _ _).1, (foldl_setSentAt _ _ _).2, (foldl_setSentAt _ _ _).1,
+      (foldl_setSentAt _ _ _).2, rfl, rfl, ?_, ?_, rfl, rfl⟩
+    · simp [effPeer, hp, returnToLoop]
+    · simp [PhaseInv, returnToLoop]
+  · refine ⟨(foldl_setSentAt _ _ _).1, (foldl_setSentAt _ _ _).2, (foldl_setSentAt _ _ _).1,
+      (foldl_setSentAt _ _ _).2, rfl, rfl, ?_, ?_, rfl, rfl⟩
     · simp [effPeer, hp]
     · simp [PhaseInv]
-  | _ => simpa [hp] using h
 
-theorem ginv_doDeliver {cfg : Cfg} {s : St} (h : GInv cfg s) : GInv cfg (doDeliver s) := by
-  unfold doDeliver
+theorem inv_doDeliver {cfg : Cfg} {s : St} (h : Inv cfg s) : Inv cfg (doDeliver s) := by
   cases hp : s.ph with
   | flight pe be msg =>
-    simp only
-    exact h.congr (foldl_setSentAt _ _ _).1 (foldl_setSentAt _ _ _).2 (foldl_setSentAt _ _ _).1
-      (foldl_setSentAt _ _ _).2 rfl rfl
-  | _ => simpa [hp] using h
+    obtain ⟨a1, a2, a3, a4, a5, a6, a7, a8, _, _⟩ := doDeliver_spec (cfg := cfg) hp
+    exact h.congr a1 a2 a3 a4 a5 a6 a7 a8
+  | _ => unfold doDeliver; simpa [hp] using h
+
+theorem ginv_doDeliver {cfg : Cfg} {s : St} (h : GInv cfg s) : GInv cfg (doDeliver s) := by
+  cases hp : s.ph with
+  | flight pe be msg =>
+    obtain ⟨a1, a2, a3, a4, _, _, _, _, a9, a10⟩ := doDeliver_spec (cfg := cfg) hp
+    exact h.congr a1 a2 a3 a4 a9 a10
+  | _ => unfold doDeliver; simpa [hp] using h
 
 end C35
